@@ -39,9 +39,20 @@ Audit round (Part 1x of spec/MolGrid.tla; all of it is replayed in both tiers):
   * end to end: 4 further exponent patterns on the lattice 0.3, 0.4, .., 30.0 chosen from Seed (law
     ExponentsInRange), and every template once more rigidly moved (axis permutation, reflections, translation from
     Seed; laws MovedRigid / MovedAdmissible) with its atoms in reverse order.
-Calibration of the end-to-end clause for the new exponents (gen/c07_calib.py: every single normalised Gaussian with
-exponent on the whole lattice 0.3..30.0 at every atom of every template and moved template, presets coarse /
-medium / sg_1): see CALIBRATION below; the bound stays the stated 1e-2.
+  * end to end, sums that populate ONE centre only (the single normalised Gaussian on atom k, exponent over the
+    whole lattice 0.3..30.0; every tenth value on veryfine/ultrafine/insane): judged on the templates as typed.
+  * templates HBr, FeO, LiF (default radial grids of later rows).
+CALIBRATION of the end-to-end clause (the bound is the stated 1e-2, nothing is tuned).  gen/c07_calib2.py: for the
+six worst templates, all 24 axis permutations / reflections the moved copies can take, presets coarse and medium:
+mean_k max_alpha err_k - a rigorous upper bound for ANY one-Gaussian-per-atom pattern on the lattice - is at most
+5.1e-3 (coarse NH3), so the Seed-dependent patterns 11..14 and the moved copies cannot trip the 1 % bound on the
+unchanged tree (observed worst over seeds 0..5: 2.7e-3).  Single-centre sums on the templates as typed
+(gen/c07_calib.py and the thorough tier): worst that holds 9.76e-3 (coarse NH3 atom 3, exponent 5.1), one that
+does not: coarse / crowd / atom 5, 1.03e-2 for exponents 9.4..11.3 - reported (known_findings.d/C07.json).  The
+values are deterministic (distance to the bound 2.4e-4 >> rounding); single-centre sums are NOT judged on the moved
+copies because there the verdict depends on the orientation (single-atom maxima 3e-3..1.2e-2 over the 24 motions).
+A realistic mutant (selftest "default rgrid: rmin not converted", "becke: call drops clip") moves these errors to
+several percent.
 
 Tolerances: everything structural is compared bit for bit.  Integral identity sum_A int_A w_A f
 vs. mol.integrate(f): relative 1e-12 (measured 4e-16).  End-to-end clause: 1e-2 as stated in the
@@ -684,6 +695,7 @@ def run(tier: str) -> int:
         if quick:
             obl = [o for o in obl if (o["preset"] in ("coarse", "fine", "sg_1", "sg_2") and o["mol"] in (2, 5, 10, 11, 13, 14))
                    or (o["preset"] == "coarse" and names[o["mol"] - 1] == "crowd")      # the template at the 1.2 bohr edge
+                   or (o["preset"] in ("coarse", "sg_1") and names[o["mol"] - 1] in ("HBr", "LiF"))
                    or (o["preset"] in ("coarse", "sg_1") and names[o["mol"] - 1] in ("H2O~", "CONHCl~", "crowd~", "ArOH~"))]
         tree = e2e["density"]
         lattices = {p["preset"]: p["exponents"] for p in e2e["single"]["lattice"]}
